@@ -65,8 +65,11 @@ class TypeQueriesAdapter:
                 w.add_component(1, C[i]())
             else:
                 w.create_entity(C[i](), entity_id=1)
-        for i in sorted(x for x in init['procs'] if x < n):
-            w.add_processor(P[i]())
+        # the order and priorities in which processors are added must not matter to by-type lookups: base classes
+        # first with equal priorities / subclasses first / subclasses with lower priorities (sorting earlier)
+        pmode = self.counter % 3
+        for i in sorted((x for x in init['procs'] if x < n), reverse=pmode == 1):
+            w.add_processor(P[i](), -i if pmode == 2 else None)
         for cls in C.values():          # a first round of queries before the last class exists
             w.get(cls)
             w.get_component(1, cls)
@@ -83,11 +86,14 @@ class TypeQueriesAdapter:
         if n in init['comps']:
             w.create_entity(C[n](), entity_id=1)
         if n in init['procs']:
-            w.add_processor(P[n]())
-        # a second entity owning one component of exactly every class: whatever it owns must not change what the
-        # queries say about entity 1 (and get() lists its components too)
-        for i in sorted(C):
-            w.add_component(2, C[i]())
+            w.add_processor(P[n](), -n if pmode == 2 else None)
+        # in every other behaviour a second entity owns one component of exactly every class: whatever it owns must
+        # not change what the queries say about entity 1 (and get() lists its components too); without it classes
+        # that have no instance anywhere in the world sit between the queried type and the component's type
+        self.decoy = self.counter % 2 == 0
+        if self.decoy:
+            for i in sorted(C):
+                w.add_component(2, C[i]())
         self.C, self.P = C, P
         self.built += 1
         self.cn = {c: i for i, c in self.C.items()}
@@ -142,7 +148,8 @@ class TypeQueriesAdapter:
 
         return {
             'ret': tuple(post['last']),
-            'get': {T: tuple(sorted([(1, t) for t in sub[T] & comps] + [(2, t) for t in sub[T]])) for T in range(1, n + 1)},
+            'get': {T: tuple(sorted([(1, t) for t in sub[T] & comps] + ([(2, t) for t in sub[T]] if self.decoy else [])))
+                    for T in range(1, n + 1)},
             'get_component': single(comps),
             'has': {T: bool(sub[T] & comps) for T in range(1, n + 1)},
             'get_processor': single(procs),
